@@ -100,10 +100,7 @@ def havoc_written(self, st, written, types, keep=()):
             cls, f = name.split(".", 1)
             ty = self.field_ty(cls, f)
             st.heap[name] = z3.Const(CTX.fresh("H_" + name), z3.ArraySort(CTX.sort(core.Ref(cls)), CTX.sort(ty)))
-            if core._has_list(ty):
-                self.notes.append("havoc of list-valued field %s: lengths assumed non-negative" % name)
-                r = fresh(core.Ref(cls), "r")
-                st.assume(core.forall_ty(core.Ref(cls), lambda x, name=name, ty=ty: z3.And(wf(V(ty, z3.Select(st.heap[name], x))) or [z3.BoolVal(True)])))
+            self.heap_wf(st.heap[name], cls, ty, st.pc)
         elif kind == "g":
             cur = st.glob[name]
             nv = fresh(cur.ty, name)
